@@ -97,6 +97,7 @@ def check_op(sc, obs, opi, add):
                 add('C01', 'ordered_equals_sequential', {'len_got': len(res), 'len_expected': len(exp), 'first_difference_at': bad,
                                                          'got': res[bad:bad + 3], 'expected': exp[bad:bad + 3]})
         else:
+            res = [tuple(x) if isinstance(x, list) else x for x in res]
             if collections.Counter(res) != collections.Counter(exp):
                 add('C01', 'unordered_same_multiset', {'len_got': len(res), 'len_expected': len(exp),
                                                        'missing': sorted((collections.Counter(exp) - collections.Counter(res)).elements())[:5],
